@@ -99,12 +99,16 @@ def flags():
     tern_fixed = "operatorType::questionMark" in af and "operatorType::colon" in af
     if not tern_fixed and "questionMark" in af:
         raise TranslateError("applyFasterOperators mentions questionMark in an unrecognised way")
+    pid = body_of(src, r"void\s+preprocessor_t::processIdentifier\s*\([^)]*\)\s*\{", "processIdentifier")
+    # F64: `defined X` (no parentheses) handled before the function-like test, operand fetched raw
+    defined_bare = bool(re.search(r"dynamic_cast<definedMacro\s*\*>\s*\(\s*macro\s*\)", pid)) and "getSourceToken()" in pid
     msrc = open(os.path.join(REPO, "src/occa/internal/lang/macro.cpp")).read()
     ma = body_of(msrc, r"bool\s+macroArgument::expand\s*\([^)]*\)\s*\{", "macroArgument::expand")
     commas = "op::comma" in ma
     return dict(vals, elifChecksStateFirst=first, lineIsTruePushes=pushes, intmaxLiterals=intmax,
                 shortCircuit=short, vaArgsKeepCommas=commas,
-                unaryAfterBinaryFixed=unary_fixed, nestedTernaryFixed=tern_fixed)
+                unaryAfterBinaryFixed=unary_fixed, nestedTernaryFixed=tern_fixed,
+                definedWithoutParens=defined_bare)
 
 
 def precedences():
@@ -155,6 +159,8 @@ def gen():
             "def shortCircuit : Bool := %s" % lb(fl["shortCircuit"]),
             "/-- __VA_ARGS__ keeps the commas between the variable arguments (F61 repaired) -/",
             "def vaArgsKeepCommas : Bool := %s" % lb(fl["vaArgsKeepCommas"]),
+            "/-- processIdentifier handles `defined X` without parentheses (F64 repaired) -/",
+            "def definedWithoutParens : Bool := %s" % lb(fl["definedWithoutParens"]),
             "/-- expressionParser: a binary + - * & before a unary operator is parsed as binary (C15's N3 repaired) -/",
             "def unaryAfterBinaryFixed : Bool := %s" % lb(fl["unaryAfterBinaryFixed"]),
             "/-- expressionParser: nested ?: groups right-to-left (C15's N5 repaired) -/",
